@@ -29,12 +29,41 @@ def torn_primary(e):
     return e.get("fskind") == "append" and e.get("cut", -1) >= 0 and str(e.get("fsfile", "")).startswith("data.")
 
 
-def run_crash(rep, scens, label, workers=None, collect=None):
-    """-> (violations [(what, replay)], known {id: count}, summary); `collect` (a list) receives every crash case"""
+def run_crash(rep, scens, label, workers=None, collect=None, confirm=True):
+    """-> (violations [(what, replay)], known {id: count}, summary); `collect` (a list) receives every crash case.
+    A failing image is a verdict only if it fails again when its scenario is traced a second time, restricted to the call
+    in flight (the replay object): the reconstruction of images from the strace log of a multi-threaded child is the one
+    part of this engine whose result can depend on timing (DESIGN.md 0A.6); an unreproduced failure is counted and logged."""
+    viol, known, summ = _run_crash(rep, scens, label, workers, collect)
+    if not viol or not confirm:
+        return viol, known, summ
+    kept, dropped = [], 0
+    again = {}
+    for what, obj in viol:
+        key = json.dumps(obj["scenario"], sort_keys=True)
+        if key not in again:
+            v2, _, _ = _run_crash(vlib.Report(rep.pid, replay=True), [obj["scenario"]], label + ".confirm", 1, None)
+            again[key] = v2
+        def sig(o):   # same rules at the same kind of file-system call on the same file (call numbers and cuts may shift between runs)
+            c = o.get("crash") or {}
+            return (tuple(o.get("rules", [])), c.get("fskind"), c.get("fsfile"))
+        if any(sig(o2) == sig(obj) for _, o2 in again[key]):
+            kept.append((what, obj))
+        else:
+            dropped += 1
+    if dropped:
+        rep.cov["crash_failures_not_reproduced_on_a_second_trace"] = rep.cov.get("crash_failures_not_reproduced_on_a_second_trace", 0) + dropped
+        vlib.log("%s: %d failing images did not fail again when their scenario was traced a second time (not a verdict; logs kept under /tmp/verif-unreproduced)" % (label, dropped))
+    return kept, known, summ
+
+
+def _run_crash(rep, scens, label, workers=None, collect=None):
     d = vlib.subdir("crash." + label)
     sf = os.path.join(d, "scen.ndjson")
     vlib.write_ndjson(sf, scens)
-    files, summ = vlib.run_harness("crash", sf, os.path.join(d, "trace"), workers=workers or min(vlib.WORKERS, max(1, len(scens))), timeout=6000)
+    logdir = os.path.join(d, "logs")
+    files, summ = vlib.run_harness("crash", sf, os.path.join(d, "trace"), workers=workers or min(vlib.WORKERS, max(1, len(scens))), timeout=6000,
+                                   env={"VERIF_CRASH_KEEPLOGS": logdir})
     cont = sorted(glob.glob(os.path.join(d, "trace.cont.*.ndjson")))
     bad, n1, _ = vlib.validate_traces("CrashTrace", "CrashTrace.cfg", files)
     cases = load_cases(files)
@@ -93,6 +122,19 @@ def run_crash(rep, scens, label, workers=None, collect=None):
         viol.append(("the crash harness dies or hangs on this scenario", {"engine": "crash", "scenario": scens[c["t"]], "rules": ["process-crash-or-hang"]}))
     for f in files + cont:
         os.unlink(f)
+    if viol and not label.endswith(".confirm"):
+        import shutil, time as _t
+        keep = "/tmp/verif-unreproduced/%s.%d" % (label, int(_t.time()))
+        os.makedirs(keep, exist_ok=True)
+        for t in sorted({b["t"] for b in bad})[:6]:
+            for ext in ("strace", "marks"):
+                src = os.path.join(logdir, "%d.%s" % (t, ext))
+                if os.path.exists(src):
+                    shutil.copyfile(src, os.path.join(keep, "%d.%s" % (t, ext)))
+        with open(os.path.join(keep, "viol.json"), "w") as f:
+            json.dump([{"what": w, "obj": o} for w, o in viol[:20]], f)
+    import shutil as _sh
+    _sh.rmtree(logdir, ignore_errors=True)
     return viol, known, summ
 
 
@@ -170,7 +212,7 @@ def model_crash_part(rep, rng, thorough):
     recovered by the real OpenStore (verdict: CrashTrace/Durable.tla as for all scenarios), and the recovered contents are
     compared with the set of contents the model's crash stages recover (conformance figure, not a verdict)."""
     pl, il, mc = (33, 30, 5) if thorough else (33, 30, 4)
-    consts = {"Vals": "{0, 5}", "PriLimit": pl, "IdxLimit": il, "MaxCalls": mc, "WithGC": "FALSE", "LowUses": "{101}", "CommitOrder": '"pif"', "Faults": '{"crash"}'}
+    consts = {"Vals": "{0, 5}", "PriLimit": pl, "IdxLimit": il, "MaxCalls": mc, "WithGC": "FALSE", "LowUses": "{101}", "Deadlines": "{0}", "CommitOrder": '"pif"', "Faults": '{"crash"}'}
     r0 = vlib.tlc_must("MCStoreCrash", "MCStoreCrash_mc.cfg", consts=consts, timeout=3000)
     if r0.violated:
         raise vlib.Infra("StoreCrash.tla violates Durable / NoLiveFreed / Refines - replay the counter-example first:\n" + r0.out[-2500:])
